@@ -6,6 +6,7 @@ namespace QuaiVerif.Proto
 def step (u : Unit) (ws : List String) : Unit × String :=
   match ws with
   | ["newcase"] => (u, "ok")
+  | ["note"] => (u, "ok")
   | ["dec", name, b] => (u, match unhex b with
     | some bytes => match dump Gen.schemas name bytes with
       | some s => if s.isEmpty then "{}" else s
